@@ -38,6 +38,10 @@ RULE = ("raw get/put/post and the pairing API (get/put characteristics, subscrib
         "the pairing API driven with every kind of Iterable the type hints admit (list, tuple, deque, dict, dict view, set, frozenset, plain iterable object, generator, iter(), map, zip, "
         "reversed, chain, hand-written iterator): same bytes as for the equivalent list, every id/value exactly once; end to end: the real IpPairing(SecureHomeKitConnection) and "
         "IpDiscovery against a reference accessory - pair-verify, re-subscription after a reconnect, remove_pairing, get_primary_name/populate, unpaired identify, pair-setup M1/M3/M5. "
+        "HISTORIES on one pairing object (in-memory transport plain/encrypted, and the real IpPairing end to end with connection drops in between and calls made while the connection is down): sequences of subscribe / unsubscribe / get / put / identify, "
+        "some in flight together, over id sets that are disjoint from / overlap / lie inside / repeat earlier ones, ids of several accessories in any order, ids named twice - the request(s) written for a call carry "
+        "exactly the ids / values of THAT call (nothing not named, nothing more often than named, everything named, per accessory in the caller's order, byte-for-byte compact), the expectation built from the "
+        "harness's copy of the arguments; only the library's own re-subscription after a reconnect may carry the recorded set (harness's record). "
         "non-trivial = distinct (entry point, host kind, secure?, body kind)")
 TRUSTED = ["orjson (compact output is checked structurally and by re-parsing, not modelled)", "cryptography ChaCha20Poly1305 to read the controller's encrypted frames"]
 ASSUMPTIONS = ["'only when there is a body' is read at the API the library exposes: get passes no body and emits neither header; put/post always pass one and emit both. "
@@ -46,7 +50,12 @@ ASSUMPTIONS = ["'only when there is a body' is read at the API the library expos
                "a JSON document always has a non-empty encoding, so post_json/put_json must carry the compact encoding of the document they were given even when it is {} / [] / 0 / \"\" / false / null "
                "(reference: the standard library's encoder with compact separators, on a domain where it and orjson agree: no floats beyond short decimals, ints within 64 bits)",
                "subscribe/unsubscribe with a ONE-PASS iterable (generator, iter(), map, zip...) put nothing on the wire on this tree (the argument is walked more than once): recorded in notes and the "
-               "distribution, not judged - no request is written, so no written request is out of form; with re-iterable arguments of every kind every id must reach the wire exactly once"]
+               "distribution, not judged - no request is written, so no written request is out of form; with re-iterable arguments of every kind every id must reach the wire exactly once",
+               "histories: 'the requests of a call' are those that reach the accessory between the start of the call and its return, the calls being awaited one after another (a group of calls in flight together is "
+               "judged as a group: reads and writes one request each, registrations as the union). A subscribe / unsubscribe request is the compact document {\"characteristics\":[{\"aid\",\"iid\",\"ev\"}...]} in that key order; "
+               "the ids of a call are written per accessory in the order the caller named them when the argument has an order (list, tuple, deque, dict...; not for sets) - how the ids are split over requests is not judged; "
+               "an id named twice in one call may be written once or twice; only the library's own re-subscription on a new session may name ids of earlier calls, and then only ids registered and not taken back "
+               "(harness's record), each once. Calls made while the connection is down: an unsubscribe may write nothing; a subscribe's ids may be written once more (by the re-subscription that the reconnect performs)"]
 EXPLANATION = "Lean theorems C09_* (request bytes = iOS spec form for all targets/hosts/bodies); differential tie through the real HomeKitConnection/IpPairing on an in-memory transport"
 
 HOSTS = ["10.0.0.7", "192.168.1.250", "fe80::1%eth0", "2001:db8::42", "::1"]
@@ -720,6 +729,486 @@ async def endtoend_case(ctx, check, loop, host, seed, notes=None, port=80):
     ctx.nontrivial.add(("endtoend", ":" in host, "%" in host))
 
 
+# ---------------------------------------------------------------------------------------------------------------------
+# histories on ONE pairing object: what a call writes must depend on the arguments of THAT call only
+REITERABLE = [k[0] for k in KINDS if not k[3]]
+HISTORY_VALUES = [True, False, 0, 1, 255, -1, 2 ** 31, 21.5, "on", "a b", "\u00fc\u00f1", None]
+HISTORY_LAYOUT = {1: [9, 10, 11, 12], 2: [20, 21, 22], 3: [30, 31]}
+# hand-written histories run first (ops as in gen_history): adding entities one by one, a run of one accessory interrupted by
+# another, an id named twice, a call repeated, reads and writes in between, registrations taken back and made again
+FIXED_HISTORIES = [
+    [{"op": "subscribe", "kind": "list", "items": [[1, 9]]}, {"op": "subscribe", "kind": "list", "items": [[1, 10]]}, {"op": "subscribe", "kind": "list", "items": [[2, 20]]},
+     {"op": "get_characteristics", "kind": "list", "items": [[1, 11]]}, {"op": "put_characteristics", "kind": "list", "items": [[1, 12, True]]},
+     {"op": "unsubscribe", "kind": "list", "items": [[1, 10]]}, {"op": "subscribe", "kind": "list", "items": [[1, 10], [1, 9]]}, {"op": "unsubscribe", "kind": "list", "items": [[2, 20], [1, 9]]}],
+    [{"op": "subscribe", "kind": "list", "items": [[2, 21], [1, 12], [2, 20], [1, 9]]}, {"op": "subscribe", "kind": "tuple", "items": [[1, 12], [1, 12], [3, 30]]},
+     {"op": "subscribe", "kind": "list", "items": [[1, 12], [1, 12], [3, 30]]}, {"op": "identify"}, {"op": "unsubscribe", "kind": "deque", "items": [[3, 31]]},
+     {"op": "get_characteristics", "kind": "set", "items": [[2, 20], [1, 9]]}, {"op": "unsubscribe", "kind": "list", "items": [[3, 30], [1, 12], [2, 21]]},
+     {"op": "put_characteristics", "kind": "list", "items": [[1, 9, 1], [2, 20, False], [1, 9, 0]]}, {"op": "subscribe", "kind": "frozenset", "items": [[3, 31], [2, 22]]}],
+    [{"op": "subscribe", "kind": "list", "items": [[1, 11], [1, 10], [1, 9]]}, {"op": "unsubscribe", "kind": "list", "items": [[1, 10]]},
+     {"op": "concurrent", "calls": [{"op": "subscribe", "kind": "list", "items": [[2, 20]]}, {"op": "get_characteristics", "kind": "list", "items": [[1, 9], [3, 30]]},
+                                    {"op": "unsubscribe", "kind": "list", "items": [[1, 9]]}, {"op": "put_characteristics", "kind": "list", "items": [[2, 21, True]]}]},
+     {"op": "subscribe", "kind": "list", "items": [[1, 12]]}, {"op": "unsubscribe", "kind": "list", "items": [[1, 12], [1, 11]]}],
+]
+
+
+def _tuples(items):
+    return [tuple(x) for x in items]
+
+
+def _order_ids(rng, ids):
+    """the caller's order: ascending, descending, the accessories interleaved (a run of one aid interrupted by another), or arbitrary"""
+    ids = list(ids)
+    how = rng.randrange(5)
+    if how == 0:
+        ids.sort()
+    elif how == 1:
+        ids.sort(reverse=True)
+    elif how == 2:
+        by = collections.defaultdict(list)
+        for x in sorted(ids):
+            by[x[0]].append(x)
+        cols = list(by.values())
+        rng.shuffle(cols)
+        ids = [x for row in itertools.zip_longest(*cols) for x in row if x is not None]
+    else:
+        rng.shuffle(ids)
+    return ids
+
+
+def gen_history(rng, layout, n, reconnect=False):
+    """a sequence of calls on one pairing: subscribe / unsubscribe / get / put / identify, some of them issued concurrently and
+    (end to end) connection drops in between.  The id sets are disjoint from, overlap with, lie inside or repeat what earlier
+    calls named; ids of several accessories in any order; an id may be named twice in one call."""
+    allids = [(a, i) for a, iids in layout.items() for i in iids]
+    held = set()  # steers the generator only - the oracle keeps its own record while the history is executed
+    last = {}
+    ops = []
+
+    def pick(entry):
+        free = [x for x in allids if x not in held]
+        mine = sorted(held)
+        shape = rng.choice(["disjoint", "overlap", "inside", "repeat", "any", "any"])
+        if shape == "disjoint" and free:
+            ids = rng.sample(free, rng.randint(1, min(5, len(free))))
+        elif shape == "overlap" and free and mine:
+            ids = rng.sample(free, rng.randint(1, min(3, len(free)))) + rng.sample(mine, rng.randint(1, min(3, len(mine))))
+        elif shape == "inside" and mine:
+            ids = rng.sample(mine, rng.randint(1, min(4, len(mine))))
+        elif shape == "repeat" and last.get(entry):
+            return [list(x) for x in last[entry]]
+        else:
+            ids = rng.sample(allids, rng.randint(1, min(8, len(allids))))
+        ids = _order_ids(rng, ids)
+        if rng.random() < 0.25:
+            for x in rng.sample(ids, rng.randint(1, min(2, len(ids)))):
+                ids.insert(rng.randint(0, len(ids)), x)
+        last[entry] = ids
+        return [list(x) for x in ids]
+
+    def call(entry, simple=False):
+        ids = pick(entry)
+        if entry in ("subscribe", "unsubscribe"):
+            kind = "list" if simple else rng.choice(REITERABLE + ["list", "list", "tuple"])
+            (held.update if entry == "subscribe" else held.difference_update)(tuple(x) for x in ids)
+            return {"op": entry, "kind": kind, "items": ids}
+        kind = "list" if simple else rng.choice([k[0] for k in KINDS] + ["list", "list"])
+        if entry == "put_characteristics":
+            return {"op": entry, "kind": kind, "items": [[a, i, rng.choice(HISTORY_VALUES)] for a, i in ids]}
+        return {"op": entry, "kind": kind, "items": ids}
+
+    while len(ops) < n:
+        r = rng.random()
+        if reconnect and r < 0.18 and ops:
+            if rng.random() < 0.5:
+                ops.append({"op": "reconnect", "settle": [list(rng.choice(allids))]})
+            else:
+                # the accessory drops the connection and the very next call finds the pairing disconnected
+                ops.append({"op": "drop"})
+                ops.append(call(rng.choice(["subscribe", "subscribe", "unsubscribe", "get_characteristics", "put_characteristics"])) if rng.random() < 0.9 else {"op": "identify"})
+        elif r < 0.45:
+            ops.append(call("subscribe"))
+        elif r < 0.63:
+            ops.append(call("unsubscribe"))
+        elif r < 0.74:
+            ops.append(call("get_characteristics"))
+        elif r < 0.85:
+            ops.append(call("put_characteristics"))
+        elif r < 0.89:
+            ops.append({"op": "identify"})
+        else:
+            # calls in flight together; the ids registered and the ids taken back in one such group are kept apart, so that
+            # what is registered afterwards does not depend on which call the library happened to serve first
+            calls, used = [], set()
+            for _ in range(rng.randint(2, 4)):
+                c = call(rng.choice(["subscribe", "subscribe", "unsubscribe", "get_characteristics", "put_characteristics"]), simple=True)
+                if c["op"] in ("subscribe", "unsubscribe"):
+                    c["items"] = [x for x in c["items"] if tuple(x) not in used] or None
+                    if c["items"] is None:
+                        continue
+                    used.update(tuple(x) for x in c["items"])
+                calls.append(c)
+            if len(calls) >= 2:
+                ops.append({"op": "concurrent", "calls": calls})
+    return ops
+
+
+def _rq(r, host, secure):
+    """an entry of the accessory-side log -> (request bytes, transport calls, encrypted?, peer address)"""
+    return r[0], r[1], (r[2] if len(r) > 2 else secure), (r[3] if len(r) > 3 else host)
+
+
+def sub_ids(raw: bytes, ev=None):
+    """the (aid, iid) pairs of a well-formed (un)subscribe request, written byte-for-byte as the compact document
+    {"characteristics":[{"aid":..,"iid":..,"ev":..},..]}; returns (ev, ids) or None"""
+    body = body_of(raw)
+    if not raw.startswith(b"PUT /characteristics "):
+        return None
+    for flag in ((True, False) if ev is None else (ev,)):
+        ids = sub_payload_ok(body, flag)
+        if ids and all(type(a) is int and type(i) is int for a, i in ids) and body == ref_json({"characteristics": [{"aid": a, "iid": i, "ev": flag} for a, i in ids]}):
+            return flag, ids
+    return None
+
+
+def read_ids(raw: bytes):
+    m = re.fullmatch(rb"GET /characteristics\?id=([0-9]+\.[0-9]+(?:,[0-9]+\.[0-9]+)*) HTTP/1\.1", raw.split(b"\r\n", 1)[0])
+    return [tuple(int(x) for x in t.split(b".")) for t in m.group(1).split(b",")] if m else None
+
+
+def _uniq(seq, keep_last=False):
+    seq = list(seq)
+    out = list(dict.fromkeys(reversed(seq) if keep_last else seq))
+    return out[::-1] if keep_last else out
+
+
+def line_of(raw: bytes) -> bytes:
+    return raw.split(b"\r\n", 1)[0]
+
+
+def _short(x, n=260):
+    s = repr(x)
+    return s if len(s) <= n else s[:n] + "..."
+
+
+def judge_registration(ctx, what, c, given, ordered, seen, need_all=True):
+    """the ids written for one subscribe / unsubscribe call (or a group of them) against the ids the caller named: nothing
+    that was not named, nothing more often than named, everything named at least once, and per accessory in the caller's order"""
+    want, got = collections.Counter(given), collections.Counter(seen)
+    foreign = sorted(set(got) - set(want))
+    missing = sorted(set(want) - set(got)) if need_all else []
+    extra = sorted(x for x in got if x in want and got[x] > want[x])
+    if foreign or missing or extra:
+        ctx.violation("request/subscribe-ids", f"{what}: the request(s) written for this call carry {_short(seen)}"
+                      + (f"; not named in this call: {foreign}" if foreign else "") + (f"; never written: {missing}" if missing else "")
+                      + (f"; written more often than named: {extra}" if extra else ""), c)
+        return False
+    if ordered:
+        for aid in sorted({a for a, _ in given}):
+            g = [x for x in given if x[0] == aid and x in got]
+            s = [x for x in seen if x[0] == aid]
+            if s != g and _uniq(s) != _uniq(g) and _uniq(s, True) != _uniq(g, True):
+                ctx.violation("request/subscribe-order", f"{what}: accessory {aid}: written in the order {_short(s)}, named in the order {_short(g)}", c)
+                return False
+    return True
+
+
+async def history_case(ctx, check, log, p, host, secure, port, layout, ops, case, net=None):
+    """execute `ops` on the ONE pairing object `p`; `log` is the accessory-side request log.  For every call the requests
+    that reached the accessory while the call ran are judged against the arguments of that call alone, the expectation
+    being built from the harness's own copy of the arguments (and, for the re-subscription the library performs by
+    itself after a reconnect, from the harness's own record of what was registered and not taken back since)."""
+    record = set()
+    mode = case["mode"]
+
+    def mk_arg(op):
+        kname = op.get("kind", "list")
+        _, mk, ordered, oneshot = next(k for k in KINDS if k[0] == kname)
+        items = _tuples(op["items"])
+        given = items if oneshot else [tuple(x) for x in mk(list(items))]  # what an iteration over the argument yields (a dict / set names an id once)
+        return mk(list(items)), given, ordered
+
+    def canonical(c, kind, r, method, target, ctype, body):
+        raw, nc, sec, peer = _rq(r, host, secure)
+        if sec != secure:
+            ctx.violation(f"request/{kind}/session", f"{raw[:70]!r} went out on the {'encrypted' if sec else 'plain'} connection", c)
+        check(kind, peer, sec, raw, nc, method, target, ctype, body, to_model=False, case=c)
+
+    def judge_read(c, what, given, new):
+        if len(new) != 1:
+            ctx.violation("request/ids", f"{what}: {len(new)} requests reached the accessory: {[x[0][:90] for x in new]}", c)
+            return
+        ids = read_ids(new[0][0])
+        if ids is None or sorted(ids) != sorted(set(given)):
+            ctx.violation("request/ids", f"{what}: read of {sorted(set(given))} rendered as {line_of(new[0][0])!r}", c)
+        canonical(c, "get_characteristics", new[0], "GET", target_of(new[0][0]), None, None)
+
+    def write_body_ok(body, given, ordered):
+        entries = [{"aid": a, "iid": i, "value": v} for a, i, v in given]
+        want_body = ref_json({"characteristics": entries})
+        if ordered:
+            return body == want_body, want_body
+        d = safe_json(body)
+        return (not ws_outside_strings(body) and isinstance(d, dict) and set(d) == {"characteristics"} and isinstance(d["characteristics"], list)
+                and all(isinstance(x, dict) and list(x) == ["aid", "iid", "value"] for x in d["characteristics"])
+                and sorted(json.dumps(x, sort_keys=True) for x in d["characteristics"]) == sorted(json.dumps(x, sort_keys=True) for x in entries)), want_body
+
+    def judge_write(c, what, given, ordered, new):
+        if len(new) != 1:
+            ctx.violation("request/write-payload", f"{what}: {len(new)} requests reached the accessory: {[x[0][:90] for x in new]}", c)
+            return
+        body = body_of(new[0][0])
+        ok, want_body = write_body_ok(body, given, ordered)
+        if not ok:
+            ctx.violation("request/write-payload", f"{what}: write payload {body[:200]!r} != compact {want_body[:200]!r}" + ("" if ordered else " (in any order)"), c)
+        canonical(c, "put_characteristics", new[0], "PUT", "/characteristics", JSON_CT, want_body if ordered else body)
+
+    def registrations(c, what, entry, new):
+        """the ids in the (un)subscribe requests among `new`, each request checked for its form"""
+        seen = []
+        for r in new:
+            got = sub_ids(r[0], entry == "subscribe")
+            if got is None:
+                ctx.violation("request/subscribe-payload", f"{what}: wrote {line_of(r[0])!r} with payload {body_of(r[0])[:200]!r}", c)
+            else:
+                seen += got[1]
+            canonical(c, entry, r, "PUT", "/characteristics", JSON_CT, body_of(r[0]))
+        return seen
+
+    def own_traffic(c, what, new):
+        """what the library writes by itself once it has lost the connection: pair-verify in the clear, then - on the new
+        session - the registration of what is registered at that moment.  Returns (the other requests, the ids re-registered)"""
+        rest, seen = [], []
+        for r in new:
+            raw = r[0]
+            if raw.startswith(b"POST /pair-verify "):
+                body = body_of(raw)
+                if not body or safe_untlv(body) is None or (len(r) > 2 and r[2]):
+                    ctx.violation("request/pair-verify/body", f"{what}: pair-verify request carries {body[:60]!r}" + (" on the encrypted session" if len(r) > 2 and r[2] else ""), c)
+                check("pair-verify", r[3] if len(r) > 3 else host, False, raw, r[1], "POST", "/pair-verify", TLV_CT, body, to_model=False, case=c)
+                continue
+            got = sub_ids(raw, True)
+            if got is None:
+                rest.append(r)
+            else:
+                seen += got[1]
+                canonical(c, "resubscribe", r, "PUT", "/characteristics", JSON_CT, body_of(raw))
+        return rest, seen
+
+    def judge_resubscription(c, what, seen, registered):
+        if len(seen) != len(set(seen)) or not set(seen) <= registered:
+            ctx.violation("request/subscribe-ids", f"{what}: registered and not taken back so far: {sorted(registered)}; the new session registered {seen}", c)
+        ctx.dist["history:reconnect:" + ("nothing-registered" if not registered else "resubscribed-all" if set(seen) == registered else "resubscribed-some")] += 1
+        ctx.nontrivial.add(("history", mode, "reconnect", len(registered) > 0, len({a for a, _ in registered}) > 1))
+
+    def describe(op):
+        if op["op"] in ("identify", "reconnect", "drop"):
+            return op["op"] + "()"
+        if op["op"] == "concurrent":
+            return "in flight together: [" + "; ".join(describe(o) for o in op["calls"]) + "]"
+        return f"{op['op']}(<{op.get('kind', 'list')}> of {_short(_tuples(op['items']), 200)})"
+
+    dropped = False  # the accessory has just dropped the connection and nothing was awaited since: the next call is made on a pairing that is not connected
+    for k, op in enumerate(ops):
+        c = dict(case, ops=ops[:k + 1], at=k)
+        name = op["op"]
+        what = f"call {k + 1} of a history on one pairing ({mode}, {host}): {describe(op)}" + (f" after {', '.join(describe(o) for o in ops[max(0, k - 3):k])}" if k else "")
+        ctx.evaluations += 1
+        ctx.dist[f"history:{name}"] += 1
+        n0 = len(log)
+        if name == "drop":
+            if net is not None and net.open:
+                net.open[-1].peer_close()
+                dropped = True
+            continue
+        if dropped and name not in ("subscribe", "unsubscribe", "get_characteristics", "put_characteristics", "identify"):
+            await asyncio.sleep(40)
+            rest, seen = own_traffic(c, what, list(log[n0:]))
+            judge_resubscription(c, what + " [the reconnect before it]", seen, set(record))
+            if rest:
+                ctx.violation("request/history/unexpected", f"{what}: while re-connecting the library wrote {[line_of(x[0]) for x in rest]}", c)
+            dropped = False
+            n0 = len(log)
+        if name in ("subscribe", "unsubscribe", "get_characteristics", "put_characteristics"):
+            arg, given, ordered = mk_arg(op)
+            ids_only = [x[:2] for x in given]
+            shape = ("dup" if len(set(ids_only)) < len(ids_only) else "nodup", "held" if record & set(ids_only) else "new", "beyond" if set(ids_only) - record else "inside", len({a for a, _ in ids_only}) > 1)
+            ctx.nontrivial.add(("history", mode, name, secure, dropped) + shape)
+            if record & set(ids_only) and set(ids_only) - record:
+                ctx.dist[f"history:{name}:overlaps-earlier-registrations"] += 1
+            elif record and not record & set(ids_only):
+                ctx.dist[f"history:{name}:disjoint-from-earlier-registrations"] += 1
+            if shape[0] == "dup":
+                ctx.dist[f"history:{name}:id-named-twice"] += 1
+            if dropped:
+                ctx.dist[f"history:{name}:called-while-disconnected"] += 1
+            try:
+                await getattr(p, name)(arg)
+            except Exception as e:  # noqa: BLE001
+                ctx.violation(f"request/{name}/raised", f"{what}" + (" (called right after the accessory dropped the connection)" if dropped else "") + f" raised {type(e).__name__}: {e}", c)
+            if dropped:
+                await asyncio.sleep(45)
+            new = list(log[n0:])
+            before = set(record)
+            if dropped and name == "subscribe":
+                # the call's own registration and the library's re-registration on the new session are the same kind of
+                # request: together they name nothing but this call's ids and what was registered, the former at least once
+                # and at most once more than named, the latter at most once
+                rest, seen = own_traffic(c, what, new)
+                if rest:
+                    ctx.violation("request/subscribe-payload", f"{what} (called while disconnected): wrote {[(line_of(x[0]), body_of(x[0])[:120]) for x in rest]}", c)
+                want, got = collections.Counter(given), collections.Counter(seen)
+                bad = sorted(x for x in got if (x in want and got[x] > want[x] + 1) or (x not in want and (x not in before or got[x] > 1)))
+                missing = sorted(set(want) - set(got))
+                if bad or missing:
+                    ctx.violation("request/subscribe-ids", f"{what} (called while disconnected; registered before: {sorted(before)}): the new session registered {_short(seen)}"
+                                  + (f"; not named / too often: {bad}" if bad else "") + (f"; never written: {missing}" if missing else ""), c)
+                record.update(given)
+            else:
+                if dropped:
+                    new, seen = own_traffic(c, what, new)
+                    judge_resubscription(c, what + " [the reconnect it ran into]", seen, before)
+                if name == "get_characteristics":
+                    judge_read(c, what, given, new)
+                elif name == "put_characteristics":
+                    judge_write(c, what, given, ordered, new)
+                else:
+                    # (an unsubscribe on a pairing that is not connected has no session to take anything back from: it may write nothing)
+                    judge_registration(ctx, what, c, given, ordered, registrations(c, what, name, new), need_all=not (dropped and name == "unsubscribe"))
+                    (record.update if name == "subscribe" else record.difference_update)(given)
+            dropped = False
+        elif name == "identify":
+            try:
+                await p.identify()
+            except Exception as e:  # noqa: BLE001
+                ctx.violation("request/identify/raised", f"{what} raised {type(e).__name__}: {e}", c)
+            if dropped:
+                await asyncio.sleep(45)
+            new = list(log[n0:])
+            if dropped:
+                new, seen = own_traffic(c, what, new)
+                judge_resubscription(c, what + " [the reconnect it ran into]", seen, set(record))
+                dropped = False
+            d = safe_json(body_of(new[0][0])) if len(new) == 1 else None
+            try:
+                aid = d["characteristics"][0]["aid"]
+            except (TypeError, KeyError, IndexError):
+                aid = None
+            if len(new) != 1 or aid not in layout:
+                ctx.violation("request/identify-payload", f"{what}: {len(new)} request(s): {[x[0][-120:] for x in new]}", c)
+            else:
+                canonical(c, "identify", new[0], "PUT", "/characteristics", JSON_CT, ref_json({"characteristics": [{"aid": aid, "iid": 2, "value": True}]}))
+        elif name == "concurrent":
+            calls = [(o, *mk_arg(o)) for o in op["calls"]]
+            ctx.nontrivial.add(("history", mode, "concurrent", secure, tuple(sorted(o["op"] for o in op["calls"]))))
+            res = await asyncio.gather(*[getattr(p, o["op"])(arg) for o, arg, _, _ in calls], return_exceptions=True)
+            for (o, _, _, _), e in zip(calls, res):
+                if isinstance(e, Exception):
+                    ctx.violation(f"request/{o['op']}/raised", f"{what}: {describe(o)} (in flight together with {len(calls) - 1} other calls) raised {type(e).__name__}: {e}", c)
+            new = list(log[n0:])
+            reads, writes, regs = [], [], {True: [], False: []}
+            for r in new:
+                raw = r[0]
+                if raw.startswith(b"GET "):
+                    ids = read_ids(raw)
+                    if ids is None or len(ids) != len(set(ids)):
+                        ctx.violation("request/ids", f"{what}: a read was rendered as {line_of(raw)!r}", c)
+                    else:
+                        reads.append(frozenset(ids))
+                    canonical(c, "get_characteristics", r, "GET", target_of(raw), None, None)
+                    continue
+                got = sub_ids(raw)
+                if got is not None:
+                    regs[got[0]] += got[1]
+                    canonical(c, "subscribe" if got[0] else "unsubscribe", r, "PUT", "/characteristics", JSON_CT, body_of(raw))
+                else:
+                    writes.append(body_of(raw))
+                    canonical(c, "put_characteristics", r, "PUT", "/characteristics", JSON_CT, body_of(raw))
+            want_reads = collections.Counter(frozenset(g) for o, _, g, _ in calls if o["op"] == "get_characteristics")
+            if collections.Counter(reads) != want_reads:
+                ctx.violation("request/ids", f"{what}: the reads in flight together named {[sorted(x) for x in want_reads.elements()]}, the requests carry {[sorted(x) for x in reads]}", c)
+            want_writes = collections.Counter(write_body_ok(b"", g, True)[1] for o, _, g, _ in calls if o["op"] == "put_characteristics")
+            if collections.Counter(writes) != want_writes:
+                ctx.violation("request/write-payload", f"{what}: the writes in flight together are {[x[:120] for x in want_writes.elements()]}, the requests carry {[x[:120] for x in writes]}", c)
+            for ev, entry in ((True, "subscribe"), (False, "unsubscribe")):
+                given = [x for o, _, g, _ in calls if o["op"] == entry for x in g]
+                judge_registration(ctx, f"{what} [{entry} calls of the group]", c, given, False, regs[ev])
+                (record.update if ev else record.difference_update)(given)
+        elif name == "reconnect":
+            # the accessory drops the connection; the library connects and verifies again and re-registers, by itself, what is
+            # registered at that moment - the one place where more than a call's own ids is legitimately written
+            settle = _tuples(op["settle"])
+            if net is not None and net.open and not dropped:
+                net.open[-1].peer_close()
+            dropped = False
+            await asyncio.sleep(40)
+            try:
+                await p.get_characteristics(list(settle))
+            except Exception as e:  # noqa: BLE001
+                ctx.violation("request/get_characteristics/raised", f"{what}: get_characteristics({settle}) after the reconnect raised {type(e).__name__}: {e}", c)
+            await asyncio.sleep(5)
+            reads, seen = own_traffic(c, what, list(log[n0:]))
+            judge_resubscription(c, what, seen, set(record))
+            judge_read(c, what + f" [get_characteristics({settle}) on the new session]", settle, reads)
+        else:
+            raise ValueError(f"unknown op {name!r}")
+
+
+async def history_rig(ctx, check, loop, host, secure, port, ops):
+    """a history on a pairing whose connection is the real HomeKitConnection (plain or encrypted) over the in-memory transport"""
+    layout = HISTORY_LAYOUT
+    case = {"stream": "history", "mode": "transport", "host": host, "port": port, "secure": secure, "layout": {str(a): i for a, i in layout.items()}}
+    rig = Rig(loop, host, secure, port)
+    rig.responder = responder
+    conn = await rig.connect()
+    try:
+        await history_case(ctx, check, rig.requests, mk_pairing(conn, layout), host, secure, port, layout, ops, case)
+    finally:
+        await conn.close()
+
+
+async def history_endtoend(ctx, check, loop, host, port, seed, ops):
+    """a history on the real IpPairing(controller, pairing_data) with its SecureHomeKitConnection against the reference
+    accessory: connection drops (and the library's own re-subscription) in between the calls"""
+    import random
+    rnd = random.Random(seed)
+
+    def rb(n):
+        return bytes(rnd.randrange(256) for _ in range(n))
+    layout = HISTORY_LAYOUT
+    case = {"stream": "history", "mode": "endtoend", "host": host, "port": port, "secure": True, "seed": seed, "layout": {str(a): i for a, i in layout.items()}}
+    acclist = accessory_list(layout)
+    net = simnet.Net(loop)
+    acc = Accessory(loop, net, rb, accessories=acclist)
+    tap = Tap(acc, net)
+
+    def reply(s, method, target, body):
+        if method == "PUT":
+            return b"HTTP/1.1 204 No Content\r\n\r\n"
+        if target.startswith("/accessories"):
+            return http(json.dumps({"accessories": acclist}).encode())
+        if target.startswith("/characteristics"):
+            return http(b'{"characteristics":[]}')
+        return http(b"{}")
+    acc.responder = reply
+    ctrl = MagicMock()
+    ctrl._char_cache = CharacteristicCacheMemory()
+    ctrl.pairings = {}
+    with net.patched():
+        p = IpPairing(ctrl, acc.pairing_data([host], port))
+        try:
+            try:
+                await p.list_accessories_and_characteristics()
+            except Exception as e:  # noqa: BLE001
+                ctx.violation("request/endtoend/raised", f"first use (connect, pair-verify, GET /accessories) on {host} raised {type(e).__name__}: {e}", dict(case, ops=[]))
+                return
+            await history_case(ctx, check, tap.requests, p, host, True, port, layout, ops, case, net=net)
+        finally:
+            try:
+                await p.close()
+            except Exception:  # noqa: BLE001
+                pass
+
+
 def run(ctx: Ctx, driver: Driver):
     rng = ctx.rng
     loop = simnet.VLoop()
@@ -965,6 +1454,30 @@ def run(ctx: Ctx, driver: Driver):
             seed = rng.randrange(2 ** 32)
             port = rng.choice([80, 80, 51827, 8080, 32768])
             drive(endtoend_case(ctx, check, loop, host, seed, noted, port), f"end to end on {host} port {port} (seed {seed})", {"stream": "endtoend", "host": host, "port": port, "seed": seed})
+    # histories on one pairing object: hand-written ones and generated ones, on every host, plain and encrypted, and end to end
+    check.port = 80
+    hk = 0
+    for ops in FIXED_HISTORIES:
+        for secure in (False, True):
+            host = HOSTS[hk % len(HOSTS)]
+            hk += 1
+            drive(history_rig(ctx, check, loop, host, secure, 80, ops), f"history on one pairing on {host}", {"stream": "history", "mode": "transport", "host": host, "port": 80, "secure": secure,
+                                                                                                              "layout": {str(a): i for a, i in HISTORY_LAYOUT.items()}, "ops": ops})
+    for _ in range(ctx.budget(8, 60)):
+        for host in HOSTS:
+            secure = rng.random() < 0.5
+            port = rng.choice([80, 80, 51827, 8080])
+            ops = gen_history(rng, HISTORY_LAYOUT, rng.randint(4, 14))
+            drive(history_rig(ctx, check, loop, host, secure, port, ops), f"history on one pairing on {host}", {"stream": "history", "mode": "transport", "host": host, "port": port, "secure": secure,
+                                                                                                                "layout": {str(a): i for a, i in HISTORY_LAYOUT.items()}, "ops": ops})
+    for k in range(ctx.budget(10, 80)):
+        host = HOSTS[k % len(HOSTS)]
+        seed = rng.randrange(2 ** 32)
+        port = rng.choice([80, 80, 51827, 32768])
+        ops = (FIXED_HISTORIES[0][:3] + [{"op": "reconnect", "settle": [[1, 11]]}] + FIXED_HISTORIES[0][3:]) if k == 0 else gen_history(rng, HISTORY_LAYOUT, rng.randint(5, 14), reconnect=True)
+        drive(history_endtoend(ctx, check, loop, host, port, seed, ops), f"history end to end on {host} port {port} (seed {seed})",
+              {"stream": "history", "mode": "endtoend", "host": host, "port": port, "secure": True, "seed": seed, "layout": {str(a): i for a, i in HISTORY_LAYOUT.items()}, "ops": ops})
+    check.port = 80
     ctx.sample(cases[1])
     ctx.sample(cases[-1])
     compare_with_model(ctx, "request", cases, outs, lines, driver)
@@ -1016,6 +1529,11 @@ def replay(ctx, driver, c):
             await on_rig(lambda rig: iterable_case(rctx, check, rig.requests, pairing_for(rig, c["vals"]), host, secure, "put_characteristics", "list", c["vals"]))
         elif stream == "payload" and "ids" in c:
             await on_rig(lambda rig: iterable_case(rctx, check, rig.requests, pairing_for(rig, c["ids"]), host, secure, "subscribe" if c.get("ev") else "unsubscribe", "list", c["ids"]))
+        elif stream == "history":
+            if c.get("mode") == "endtoend":
+                await history_endtoend(rctx, check, loop, host, port, c["seed"], c["ops"])
+            else:
+                await history_rig(rctx, check, loop, host, secure, port, c["ops"])
         elif stream == "endtoend" and "seed" in c:
             await endtoend_case(rctx, check, loop, host, c["seed"], None, port)
         elif stream == "request" and c.get("kind") in ("get", "put", "post", "put-tlv", "request-get", "request-body"):
